@@ -420,6 +420,9 @@ func c01Expressions(r *findings.Run, deadline time.Time) {
 			return
 		}
 		pv = confirm(prog, o, pv)
+		if pv.Symptom == "" {
+			return // a sandbox kill that did not repeat (counted in common.go)
+		}
 		lay := ""
 		if o.Compact {
 			lay = " layout=compact"
@@ -1140,11 +1143,17 @@ func c01Skeletons(r *findings.Run, deadline time.Time) {
 				return
 			}
 			pv = confirm(s.prog, ProgOpts{}, pv)
+			if pv.Symptom == "" {
+				return // a sandbox kill that did not repeat (counted in common.go)
+			}
 			r.Fail("skeleton="+s.name+" symptom="+pv.Symptom, fmt.Sprintf("control skeleton %s: %s (%s)", s.name, pv.Symptom, pv.Detail), progReplay(pv, nil))
 		} else if strings.HasPrefix(s.name, "simple:") || i%16 == 0 {
 			// the simple-statement programs and every sixteenth skeleton also in the compact spelling
 			if cv := JudgeBash(s.prog, ProgOpts{Compact: true}); cv.Symptom != "" && cv.Symptom != "undefined" && r.Violations() <= 40 {
 				cv = confirm(s.prog, ProgOpts{Compact: true}, cv)
+				if cv.Symptom == "" {
+					return // a sandbox kill that did not repeat (counted in common.go)
+				}
 				r.Fail("skeleton="+s.name+" layout=compact symptom="+cv.Symptom, fmt.Sprintf("control skeleton %s in compact layout: %s (%s)", s.name, cv.Symptom, cv.Detail), progReplay(cv, nil))
 			}
 		}
@@ -1269,7 +1278,7 @@ func C01() int {
 	r.Set("rule", "bounded-exhaustive enumeration: (E) every well-typed expression tree with k operator nodes over the stated leaf/operator alphabets, each under every listed valuation (a cell = tree x valuation; distinct by printed text+valuation; cells the model flags undefined, e.g. zero divisor, are skipped and counted); (S) every control skeleton with n constructs / depth d over the stated construct alphabet plus the simple-statement x context table (distinct by source text). Every case is transpiled by the real transpiler, run by the real bash and compared with the reference interpreter (stdout bytes, exit status, empty stderr).")
 	r.Assumef("reference interpreter tsmodel (independent of the repository code) is the meaning of the program; strings restricted to shell-neutral content (C08 owns the rest)")
 	r.Assumef("bash at /bin/bash, run with empty environment in an empty directory")
-	return r.Finish()
+	return finish(r)
 }
 
 // c01TwelveOfEach: whatever a back-end numbers (loop flags and labels, branch labels, helper temporaries,
@@ -1303,7 +1312,7 @@ func c01TwelveOfEach() []*Prog {
 		for i := 1; i <= n; i++ {
 			st = append(st, If{Cond: Binary{Op: "==", L: Binary{Op: "%", L: x, R: iv(3)}, R: iv(0)}, Then: []Stmt{OpAssign{Name: "x", Op: "+", Val: iv(i)}},
 				Elifs: []ElseIf{{Cond: Binary{Op: "==", L: Binary{Op: "%", L: x, R: iv(3)}, R: iv(1)}, Body: []Stmt{OpAssign{Name: "x", Op: "+", Val: iv(2 * i)}}}},
-				Else: []Stmt{OpAssign{Name: "x", Op: "-", Val: iv(1)}}, HasElse: true}, pr("if", iv(i), x))
+				Else:  []Stmt{OpAssign{Name: "x", Op: "-", Val: iv(1)}}, HasElse: true}, pr("if", iv(i), x))
 		}
 		for i := 1; i <= n; i++ {
 			st = append(st, Switch{Tag: Binary{Op: "%", L: x, R: iv(4)}, Cases: []Case{{Val: iv(0), Body: []Stmt{OpAssign{Name: "x", Op: "+", Val: iv(i)}}}, {Val: iv(1), Body: []Stmt{OpAssign{Name: "x", Op: "*", Val: iv(2)}}},
